@@ -167,7 +167,10 @@ def rand_string(r):
         text = '  ' + text
     if r.random() < 0.1:
         text = text + '  # tail'
-    if text.endswith('\\') and not text.endswith('\\\\'):
+    if r.random() < 0.1:
+        text += r.choice(('\\\\', '\\\\\\\\', '\\\\\\\\\\\\', 'x\\\\'))        # the text ends in one, two or three escaped backslashes
+    nb = len(text) - len(text.rstrip('\\'))
+    if nb % 2:
         text += 'n'
     return text, sorted(set(classes))
 
